@@ -15,6 +15,9 @@ import (
 	"go.dedis.ch/kyber/v4/pairing/bn254"
 	"go.dedis.ch/kyber/v4/sign/bls"
 	"go.dedis.ch/kyber/v4/util/random"
+	"go.dedis.ch/kyber/v4/xof/blake2xb"
+	"go.dedis.ch/kyber/v4/xof/blake2xs"
+	"go.dedis.ch/kyber/v4/xof/keccak"
 	"math/big"
 	"strings"
 	"sync"
@@ -304,6 +307,28 @@ func c20SchemeMethods() []roMethod {
 		}}, roMethod{fmt.Sprintf("bn254 caller-set DST(%d): bls Sign+Verify", dl), func() string {
 			s2, err := sch.Sign(bx, msg)
 			return fmt.Sprintf("%x %v %v", s2, err, sch.Verify(bX, msg, bsig))
+		}})
+	}
+	// every goroutine takes its OWN clone of one shared XOF that has been used before (so that its
+	// internal scratch buffers exist) and works on the clone: only Clone touches the shared object
+	for _, xi := range []struct {
+		name string
+		mk   func([]byte) kyber.XOF
+	}{{"blake2xb", blake2xb.New}, {"blake2xs", blake2xs.New}, {"keccak", keccak.New}} {
+		xi := xi
+		sharedX := xi.mk([]byte("c20-xof-" + xi.name))
+		warm := make([]byte, 200)
+		sharedX.XORKeyStream(warm, warm)
+		sharedX.Reseed()
+		sharedX.XORKeyStream(warm[:64], warm[:64])
+		ms = append(ms, roMethod{xi.name + " XOF: Clone of a used shared XOF, XORKeyStream+Reseed on the clone", func() string {
+			c := sharedX.Clone()
+			b := make([]byte, 48)
+			c.XORKeyStream(b, b)
+			c.Reseed()
+			b2 := make([]byte, 16)
+			_, _ = c.Read(b2)
+			return fmt.Sprintf("%x%x", b, b2)
 		}})
 	}
 	// public polynomial
